@@ -161,7 +161,7 @@ func (s *reportSim) spawnWarrior(wi int, startOffset Address) error {
 	}
 
 	w.pq = newProcessQueue(s.maxProcs)
-	w.pq.Push(startOffset + Address(w.data.Start))
+	w.pq.Push((startOffset + Address(w.data.Start)) % s.m)
 	w.state = WarriorAlive
 	s.warriorLivingCount += 1
 
